@@ -273,6 +273,73 @@ theorem render_hang_counterexample :
     parseTemplate "{inconclusive:".toList = none := by decide
 example : Spec.render (fun _ => []) f10Witness false [.mk "message".toList] [] = "#error see {line}".toList := by decide
 
+/-! ## the `{code}` field reads the original file -/
+
+theorem srcOf_rewrite (files : Str → Int → Str) (g : Str → Str) (l : Loc) :
+    srcOf files { l with file := g l.file } = srcOf files l := rfl
+
+/-- the `{code}` template on a finding with a call stack: source line of the ORIGINAL file, line end, caret -/
+theorem code_field (brk : Bool) (files : Str → Int → Str) (f : Finding) (verbose : Bool) (last : Loc)
+    (h : f.stack.getLast? = some last) :
+    mainText brk (srcOf files) f verbose "{code}".toList =
+      some (readCode (files last.origFile last.line) last.column ['\n']) := by
+  unfold mainText
+  have e1 : ∀ v, far "{code}".toList "{id}".toList v = "{code}".toList := fun v => rfl
+  simp only [e1]
+  have e2 : find mInc "{code}".toList 0 = none := by decide
+  rw [e2]
+  simp only [inconclusiveLoop]
+  have e3 : ∀ v, far "{code}".toList "{severity}".toList v = "{code}".toList := fun v => rfl
+  have e4 : ∀ v, far "{code}".toList "{cwe}".toList v = "{code}".toList := fun v => rfl
+  have e5 : ∀ v, far "{code}".toList "{message}".toList v = "{code}".toList := fun v => rfl
+  have e6 : ∀ v, far "{code}".toList "{remark}".toList v = "{code}".toList := fun v => rfl
+  have e7 : ∀ v, far "{code}".toList "{callstack}".toList v = "{code}".toList := fun v => rfl
+  have e8 : ∀ v, far "{code}".toList "{file}".toList v = "{code}".toList := fun v => rfl
+  have e9 : ∀ v, far "{code}".toList "{line}".toList v = "{code}".toList := fun v => rfl
+  have e10 : ∀ v, far "{code}".toList "{column}".toList v = "{code}".toList := fun v => rfl
+  have e11 : ∀ v, far "{code}".toList "{code}".toList v = v := by
+    intro v; simp [far, farGo, List.isPrefixOf]
+  have e12 : endlOf "{code}".toList = ['\n'] := by decide
+  simp only [e3, e4, e5, e6, h, e7, e8, e9, e10, e11, e12, srcOf]
+
+theorem loc_code_field (files : Str → Int → Str) (shortMsg : Str) (l : Loc) :
+    locText (srcOf files) shortMsg "{code}".toList l = readCode (files l.origFile l.line) l.column ['\n'] := by
+  unfold locText
+  have e8 : ∀ v, far "{code}".toList "{file}".toList v = "{code}".toList := fun v => rfl
+  have e9 : ∀ v, far "{code}".toList "{line}".toList v = "{code}".toList := fun v => rfl
+  have e10 : ∀ v, far "{code}".toList "{column}".toList v = "{code}".toList := fun v => rfl
+  have e10' : ∀ v, far "{code}".toList "{info}".toList v = "{code}".toList := fun v => rfl
+  have e11 : ∀ v, far "{code}".toList "{code}".toList v = v := by
+    intro v; simp [far, farGo, List.isPrefixOf]
+  have e12 : endlOf "{code}".toList = ['\n'] := by decide
+  simp only [e8, e9, e10, e10', e11, e12, srcOf]
+
+/-- **the `{code}` field does not depend on the display path**: rewriting the display names of all locations (as
+    `-rp=<base>` / `setfile` do) leaves the text of the `{code}` templates unchanged — the line shown is read from the
+    original file -/
+theorem toString_code_independent_of_display_path (brk : Bool) (files : Str → Int → Str) (f : Finding) (verbose : Bool)
+    (g : Str → Str) :
+    Template.toString brk (srcOf files) (rewriteDisplay g f) verbose "{code}".toList "{code}".toList =
+      Template.toString brk (srcOf files) f verbose "{code}".toList "{code}".toList := by
+  have hm : mainText brk (srcOf files) (rewriteDisplay g f) verbose "{code}".toList =
+      mainText brk (srcOf files) f verbose "{code}".toList := by
+    cases h : f.stack.getLast? with
+    | some last =>
+      have h' : (rewriteDisplay g f).stack.getLast? = some { last with file := g last.file } := by
+        simp [rewriteDisplay, List.getLast?_map, h]
+      rw [code_field brk files f verbose last h, code_field brk files _ verbose _ h']
+    | none =>
+      have hs : f.stack = [] := List.getLast?_eq_none_iff.mp h
+      have : rewriteDisplay g f = f := by
+        cases f; simp only [rewriteDisplay] at *; simp [hs]
+      rw [this]
+  unfold Template.toString
+  rw [hm]
+  cases mainText brk (srcOf files) f verbose "{code}".toList with
+  | none => rfl
+  | some r =>
+    simp only [rewriteDisplay, List.length_map, List.flatMap_map, loc_code_field]
+
 /-! ## each finding once (`StdLogger::reportErr`) -/
 
 /-- **Each finding once**: the renderings handed to the writer are pairwise distinct, and the rendering of every
